@@ -23,6 +23,9 @@ pub(crate) struct PushSocket {
   outgoing_orchestrator: OutgoingMessageOrchestrator,
   pipe_read_to_endpoint_uri: RwLock<HashMap<usize, String>>,
   cached_options: ArcSwap<SocketOptions>,
+  /// Frames passed to send() with MORE, kept until the frame that ends the message arrives: a message is
+  /// routed to ONE peer as a whole, never frame by frame.
+  pending_parts: parking_lot::Mutex<FrameBatch>,
 }
 
 impl PushSocket {
@@ -33,6 +36,7 @@ impl PushSocket {
       outgoing_orchestrator: OutgoingMessageOrchestrator::new(),
       pipe_read_to_endpoint_uri: RwLock::new(HashMap::new()),
       cached_options: ArcSwap::from(options_snapshot),
+      pending_parts: parking_lot::Mutex::new(FrameBatch::new()),
     }
   }
 }
@@ -69,14 +73,33 @@ impl ISocket for PushSocket {
     let sndtimeo = self.cached_options.load().sndtimeo;
     let wait_for_peer = !matches!(sndtimeo, Some(d) if d.is_zero());
 
-    let mut fb = FrameBatch::new();
-    fb.push(msg);
+    // A message sent frame by frame is load-balanced as one unit: hold the frames that carry MORE.
+    let fb = {
+      let mut parts = self.pending_parts.lock();
+      if parts.len() >= crate::message::MAX_USER_FRAMES_PER_MESSAGE {
+        *parts = FrameBatch::new();
+        return Err(ZmqError::InvalidMessage(format!(
+          "multipart message exceeds {} frames",
+          crate::message::MAX_USER_FRAMES_PER_MESSAGE
+        )));
+      }
+      let more = msg.is_more();
+      parts.push(msg);
+      if more {
+        return Ok(());
+      }
+      std::mem::replace(&mut *parts, FrameBatch::new())
+    };
     self.send_with_timeout(fb, wait_for_peer, sndtimeo).await
   }
 
   fn try_send_sync(&self, msg: Msg) -> Result<(), (Msg, ZmqError)> {
     if !self.core.is_running() {
       return Err((msg, ZmqError::InvalidState("Socket is closing".into())));
+    }
+    // part of a multipart message (or one is in progress): the async path assembles it
+    if msg.is_more() || !self.pending_parts.lock().is_empty() {
+      return Err((msg, ZmqError::ResourceLimitReached));
     }
     let mut fb = FrameBatch::new();
     fb.push(msg);
